@@ -389,7 +389,7 @@ func StrictFloatLaxEqual[T StrictFloat](left T, right Value) bool {
 	if right.IsReference() {
 		switch r := right.AsReference().(type) {
 		case *BigInt:
-			return T(left) == T(r.ToFloat())
+			return float64(left) == float64(r.ToFloat())
 		case *BigFloat:
 			if r.IsNaN() {
 				return false
@@ -397,9 +397,9 @@ func StrictFloatLaxEqual[T StrictFloat](left T, right Value) bool {
 			iBigFloat := (&big.Float{}).SetFloat64(float64(left))
 			return iBigFloat.Cmp(r.AsGoBigFloat()) == 0
 		case Int64:
-			return T(left) == T(r)
+			return float64(left) == float64(r)
 		case UInt64:
-			return T(left) == T(r)
+			return float64(left) == float64(r)
 		case Float64:
 			return float64(left) == float64(r)
 		default:
@@ -410,43 +410,43 @@ func StrictFloatLaxEqual[T StrictFloat](left T, right Value) bool {
 	switch right.ValueFlag() {
 	case SMALL_INT_FLAG:
 		r := right.AsSmallInt()
-		return T(left) == T(r)
+		return float64(left) == float64(r)
 	case FLOAT_FLAG:
 		r := right.AsFloat()
 		return float64(left) == float64(r)
 	case INT64_FLAG:
 		r := right.AsInlineInt64()
-		return T(left) == T(r)
+		return float64(left) == float64(r)
 	case INT32_FLAG:
 		r := right.AsInt32()
-		return T(left) == T(r)
+		return float64(left) == float64(r)
 	case INT16_FLAG:
 		r := right.AsInt16()
-		return T(left) == T(r)
+		return float64(left) == float64(r)
 	case INT8_FLAG:
 		r := right.AsInt8()
-		return T(left) == T(r)
+		return float64(left) == float64(r)
 	case UINT_FLAG:
 		r := right.AsUInt()
-		return T(left) == T(r)
+		return float64(left) == float64(r)
 	case UINT64_FLAG:
 		r := right.AsInlineUInt64()
-		return T(left) == T(r)
+		return float64(left) == float64(r)
 	case UINT32_FLAG:
 		r := right.AsUInt32()
-		return T(left) == T(r)
+		return float64(left) == float64(r)
 	case UINT16_FLAG:
 		r := right.AsUInt16()
-		return T(left) == T(r)
+		return float64(left) == float64(r)
 	case UINT8_FLAG:
 		r := right.AsUInt8()
-		return T(left) == T(r)
+		return float64(left) == float64(r)
 	case FLOAT64_FLAG:
 		r := right.AsInlineFloat64()
 		return float64(left) == float64(r)
 	case FLOAT32_FLAG:
 		r := right.AsFloat32()
-		return T(left) == T(r)
+		return float64(left) == float64(r)
 	default:
 		return false
 	}
